@@ -391,14 +391,36 @@ func C03(c *core.Ctx) {
 			continue
 		}
 		found := false
-		for _, ci := range core.FindCallsDeep(fn, core.CalleeID{Pkg: "std/encoding", Recv: "TLNum", Name: w[2]}) {
-			recv, _ := core.CallArgs(ci.Common())
-			for _, l := range sl.Leaves(recv) {
-				if cl, ok := l.Val.(*ssa.Call); ok {
-					if id, ok := core.Callee(&cl.Call); ok && ((id.Pkg == "builtin" && id.Name == "len") || id.Name == "EncodingLength") {
-						found = true
+		// the receiver is a length: len(...) / EncodingLength(), directly or as what a small
+		// accessor of the package returns (Component.Length() is TLNum(len(c.Val)))
+		var isLength func(v ssa.Value, depth int) bool
+		isLength = func(v ssa.Value, depth int) bool {
+			for _, l := range sl.Leaves(v) {
+				cl, ok := l.Val.(*ssa.Call)
+				if !ok {
+					continue
+				}
+				if id, ok := core.Callee(&cl.Call); ok && ((id.Pkg == "builtin" && id.Name == "len") || id.Name == "EncodingLength") {
+					return true
+				}
+				if cal := cl.Call.StaticCallee(); cal != nil && cal.Blocks != nil && cal.Pkg == fn.Pkg && depth < 2 && len(cal.Blocks) <= 2 {
+					ok := false
+					core.Instrs(cal, func(in ssa.Instruction) {
+						if r, isR := in.(*ssa.Return); isR && len(r.Results) == 1 && isLength(r.Results[0], depth+1) {
+							ok = true
+						}
+					})
+					if ok {
+						return true
 					}
 				}
+			}
+			return false
+		}
+		for _, ci := range core.FindCallsDeep(fn, core.CalleeID{Pkg: "std/encoding", Recv: "TLNum", Name: w[2]}) {
+			recv, _ := core.CallArgs(ci.Common())
+			if isLength(recv, 0) {
+				found = true
 			}
 		}
 		c.Decide(found, "R3.1", "length-as-tlnum:"+w[0]+"."+w[1]+":"+w[2], p.Pos(fn.Pos()), "the value length goes through TLNum."+w[2], w[0]+"."+w[1]+" does not size/write its length field with TLNum."+w[2])
